@@ -1,3 +1,92 @@
-import NettyVerif.Proofs.Chan
+import NettyVerif.Proofs.ChanClose
+/-! # C06 — Graceful close delivers every payload accepted before Close
+
+Chan LTS with the repaired wait loop of Close (queue first, ownership flag second; a sender that
+gave up after a transport failure is not waited for).  `accAtLen` is the ghost `|accepted|` at the
+moment the winning Close last saw the queue empty; since `accepted` only grows, every payload
+accepted before Close was invoked has an index below it. -/
 namespace NettyVerif.C06
+open NettyVerif.Chan
+variable {α : Type}
+
+def init (sync : Bool) (cap : Nat) (untilW : Bool) : St α := { sync := sync, cap := cap, untilW := untilW }
+
+/-- **graceful close**: in every reachable state in which the winning Close is about to close the
+    transport after leaving its wait loop gracefully, every payload accepted before it saw the queue
+    empty is on the wire and has been flushed (wire is a prefix of accepted, and the flushed prefix
+    of the wire covers the first `accAtLen` accepted payloads) -/
+theorem C06_graceful (sync : Bool) (cap : Nat) (untilW : Bool) (acts : List (Act α)) (s : St α)
+    (hr : run (init sync cap untilW) acts = some s)
+    (hc : s.closer = some .trClose) (hg : s.graceful = true) (hb : s.broken = false) :
+    s.accAtLen ≤ s.flushed ∧ s.flushed ≤ s.wire.length ∧ s.wire <+: s.accepted := by
+  obtain ⟨hw, hci⟩ := invs_run acts _ s (inv_init sync cap untilW) (cinv_init sync cap untilW) hr
+  refine ⟨hci.gracePh hg hb (Or.inr hc), hw.flushedLe, ?_⟩
+  rw [hw.fifo hb, List.append_assoc]; exact List.prefix_append _ _
+
+/-- on channels created to wait for pending writes (`untilWrite`) the wait loop can only be left
+    gracefully -/
+theorem C06_until_always_graceful (cap : Nat) (acts : List (Act α)) (s : St α)
+    (hr : run (init false cap true) acts = some s) (hc : s.closer = some .trClose) : s.graceful = true := by
+  obtain ⟨hw, hci⟩ := invs_run acts _ s (inv_init false cap true) (cinv_init false cap true) hr
+  have hcfg : s.untilW = true ∧ s.sync = false := by
+    have : ∀ (acts : List (Act α)) (a b : St α), run a acts = some b → b.sync = a.sync ∧ b.untilW = a.untilW := by
+      intro acts
+      induction acts with
+      | nil => intro a b h; simp [run] at h; subst h; exact ⟨rfl, rfl⟩
+      | cons x xs ih =>
+        intro a b h
+        simp only [run] at h
+        cases hs : step a x with
+        | none => simp [hs] at h
+        | some a1 =>
+          simp [hs] at h
+          obtain ⟨i1, i2⟩ := ih a1 b h
+          rw [i1, i2]
+          cases x <;> simp only [step] at hs <;> (repeat' split at hs) <;> simp at hs <;> subst hs <;> exact ⟨rfl, rfl⟩
+    have := this acts _ s hr
+    exact ⟨this.2, this.1⟩
+  exact hci.untilGrace hcfg.1 hcfg.2 (Or.inr hc)
+
+/-- Close never closes the transport while an owner holds a batch of payloads accepted before it
+    saw the queue empty: at that point they are already flushed, so an owner's batch can only
+    contain later payloads -/
+theorem C06_no_close_mid_batch (sync : Bool) (cap : Nat) (untilW : Bool) (acts : List (Act α)) (s : St α)
+    (hr : run (init sync cap untilW) acts = some s)
+    (hc : s.closer = some .trClose) (hg : s.graceful = true) (hb : s.broken = false) :
+    s.accAtLen ≤ s.wire.length := by
+  have := C06_graceful sync cap untilW acts s hr hc hg hb
+  omega
+
+/-- accepted only grows: a payload accepted before any later step keeps its index -/
+theorem C06_accepted_append_only (s s' : St α) (a : Act α) (h : step s a = some s') : s.accepted <+: s'.accepted := by
+  cases a <;> simp only [step] at h <;> (repeat' split at h) <;> simp at h <;> subst h <;> simp
+
+/-- **pinned wait loop (flag only), negation witness** — the schedule the controller replayed on the
+    real code before fix f44ba02 (findings/C06-close-loses-accepted-payload.replay.json): the closer
+    reads `running = idle` in the window between the sender's `Store idle` and its re-acquire, and
+    closes the transport while payload 2, whose write had returned, is still queued -/
+def stepPinnedClose (s : St Nat) : Act Nat → Option (St Nat)
+  | .closeLen => match s.closer with          -- the pinned loop never looks at the queue
+    | some (.len n) => some { s with closer := some (.load n) }
+    | _ => none
+  | a => step s a
+
+def runPinned (s : St Nat) : List (Act Nat) → Option (St Nat)
+  | [] => some s
+  | a :: as => (stepPinnedClose s a).bind (runPinned · as)
+
+theorem C06_pinned_loses_payload :
+    (runPinned (init false 2 true)
+      [.beginWrite, .enqueue 1, .casWriter, .exec, .sndRecv, .sndDefault, .sndWritev true, .sndPut, .sndLen1,
+       .beginWrite, .enqueue 2, .casWriter,                       -- p2 accepted; its CAS fails (sender still running); call returns
+       .sndFlush true, .sndStore,                                  -- sender releases ownership
+       .closeCas, .closeLen, .closeLoad, .closeSetErr, .closeTr]).map
+      (fun s => (s.wire, s.q, s.trClosed)) = some ([1], [2], true) := by decide
+
 end NettyVerif.C06
+
+#print axioms NettyVerif.C06.C06_graceful
+#print axioms NettyVerif.C06.C06_until_always_graceful
+#print axioms NettyVerif.C06.C06_no_close_mid_batch
+#print axioms NettyVerif.C06.C06_accepted_append_only
+#print axioms NettyVerif.C06.C06_pinned_loses_payload
